@@ -312,6 +312,7 @@ class timemodel(_coreiterative):
             checkend = self._check_end(stopcrit)
             # save at least current state
             if checkend and len(results)==0:
+                self.Qn.it = self._itstart + self._nit # tag iteration count so that restart() can resume it
                 results.append(self.Qn)
         self._cputime = myclock() - start
         if flush:
